@@ -32,7 +32,11 @@ def run_ops(root, lines, env_extra=None):
     env = dict(ENV)
     if env_extra:
         env.update(env_extra)
-    p = subprocess.run([CRASH_BIN, "run", "--root", root, "--ops", opsf], capture_output=True, text=True, env=env)
+    try:
+        p = subprocess.run([CRASH_BIN, "run", "--root", root, "--ops", opsf], capture_output=True, text=True, env=env, timeout=300)
+    except subprocess.TimeoutExpired:
+        os.unlink(opsf)
+        return 124, [], "HANG the process timed out (300 s)"
     os.unlink(opsf)
     return p.returncode, [l[2:] for l in p.stdout.splitlines() if l.startswith("R ")], p.stderr
 
